@@ -341,6 +341,7 @@ fn sc_piecewise_topup_then_close(t: &mut Tracer) {
     for _ in 0..9 {
         w.pos_expand(&b, "u-bob", &[coin(1, lp.clone())]);
     }
+    w.pos_create(&b, Some("bobsmall".into()), 15778463, None, &[coin(1, lp.clone())]); // stays open while the pieced one is closed
     w.pos_close(&b, "u-bob", None, &[]);
     w.advance(DAY);
     // partial closes of a position built in pieces
@@ -353,15 +354,18 @@ fn sc_piecewise_topup_then_close(t: &mut Tracer) {
 
 /// witness of finding F3 (C11): zero farm-creation fee
 fn sc_zero_fee(t: &mut Tracer) {
-    let mut w = W::new(SysCfg { farm_fee: coin(0, "uom"), ..Default::default() }, 1, t, "zero_fee");
+    let mut w = W::new(SysCfg { farm_fee: coin(0, "uom"), ..Default::default() }, 2, t, "zero_fee");
     let lp = w.lps[0].clone();
+    let lp2 = w.lps[1].clone();
     let o = w.user(0);
     w.create_farm(&o, &lp, Some(1), Some(9), coin(8000, "uweth"), Some("f1".into()), &[coin(8000, "uweth")]);
     w.create_farm(&o, &lp, Some(1), Some(9), coin(8000, "uweth"), Some("f2".into()), &[coin(777, "uusd"), coin(8000, "uweth")]);
     w.create_farm(&o, &lp, Some(1), Some(9), coin(8000, "uom"), Some("f3".into()), &[coin(8000, "uom")]);
-    w.create_farm(&o, &lp, Some(1), Some(9), coin(8000, "uom"), Some("f4".into()), &[coin(8001, "uom")]);
-    w.create_farm(&o, &lp, Some(1), Some(9), coin(8000, "uom"), Some("f5".into()), &[coin(1000, "uom")]); // declared 8000, attached 1000
-    w.create_farm(&o, &lp, Some(1), Some(9), coin(8000, "uom"), Some("f6".into()), &[coin(7999, "uom")]);
+    // the other LP token has no farm yet, so the limit of two farms cannot be the reason for a refusal
+    w.create_farm(&o, &lp2, Some(1), Some(9), coin(8000, "uom"), Some("f4".into()), &[coin(8001, "uom")]);
+    w.create_farm(&o, &lp2, Some(1), Some(9), coin(8000, "uom"), Some("f5".into()), &[coin(1000, "uom")]); // declared 8000, attached 1000
+    w.create_farm(&o, &lp2, Some(1), Some(9), coin(8000, "uom"), Some("f6".into()), &[coin(7999, "uom")]);
+    w.create_farm(&o, &lp2, Some(1), Some(9), coin(8000, "uom"), Some("f7".into()), &[coin(8000, "uom")]);
 }
 
 /// C11: fee configurations and over/under payment; farm limit; expiry and auto close
@@ -638,6 +642,30 @@ fn sc_alternating_lp_positions(t: &mut Tracer) {
     w.advance(DAY);
     w.claim(&c, None, &[]);
     w.claim(&b, None, &[]);
+}
+
+/// the owner narrows the allowed unlocking range after long positions were opened; closing them must remove their weight
+fn sc_unlock_range_narrowed(t: &mut Tracer) {
+    let mut w = W::new(SysCfg::default(), 1, t, "unlock_range_narrowed");
+    let lp = w.lps[0].clone();
+    let (o, b, c) = (w.user(0), w.user(1), w.user(2));
+    let f = w.fee_funds(&coin(40_000, "uweth"));
+    w.create_farm(&o, &lp, Some(1), Some(11), coin(40_000, "uweth"), Some("f".into()), &f);
+    w.pos_create(&b, Some("long".into()), YEAR, None, &[coin(1000, lp.clone())]);
+    w.pos_create(&b, Some("short".into()), DAY, None, &[coin(1000, lp.clone())]);
+    w.pos_create(&c, Some("c".into()), DAY, None, &[coin(1000, lp.clone())]);
+    w.advance(DAY);
+    let narrow = fm::ExecuteMsg::UpdateConfig { fee_collector_addr: None, epoch_manager_addr: None, pool_manager_addr: None, create_farm_fee: None, max_concurrent_farms: None,
+        max_farm_epoch_buffer: None, min_unlocking_duration: None, max_unlocking_duration: Some(30 * DAY), farm_expiration_time: None, emergency_unlock_penalty: None };
+    w.fm_update_config(&o, narrow, "max_unlocking_duration=30d", &[]);
+    w.pos_create(&c, Some("toolong".into()), YEAR, None, &[coin(10, lp.clone())]); // now out of range
+    w.claim(&b, None, &[]);
+    w.pos_close(&b, "u-long", Some(coin(400, lp.clone())), &[]);
+    w.pos_close(&b, "u-long", None, &[]);
+    w.advance(DAY);
+    w.claim(&b, None, &[]);
+    w.claim(&c, None, &[]);
+    w.pos_withdraw(&b, "u-short", Some(true), &[]);
 }
 
 /// more than ten farms on one LP token (limit raised to 12), shares that are exact thirds (small and very
@@ -979,6 +1007,7 @@ pub fn run(rng: &mut StdRng, thorough: bool, t: &mut Tracer) {
     sc_two_lps_shared_cursor(t);
     sc_many_farms_exact_thirds_long_farm(t);
     sc_alternating_lp_positions(t);
+    sc_unlock_range_narrowed(t);
     sc_position_limits(t);
     sc_claim_schedule_twins(rng, t, if thorough { 8 } else { 4 });
     // seeded random histories
